@@ -29,6 +29,7 @@ import (
 	"github.com/hashicorp/nodeenrollment"
 	"github.com/hashicorp/nodeenrollment/types"
 	"google.golang.org/protobuf/proto"
+	"google.golang.org/protobuf/types/known/structpb"
 
 	"verifharness/engine"
 	"verifharness/world"
@@ -118,6 +119,28 @@ func kvBlank(typ, id string) nodeenrollment.MessageWithId {
 		return &types.RootCertificates{Id: id}
 	case kvToken:
 		return &types.ServerLedActivationToken{Id: id}
+	}
+	panic("kvmodel: unknown type " + typ)
+}
+
+// kvDirty is a load target a caller has used before: the right ID, and content of an earlier,
+// different record in fields the stored records leave unset as well as in those they set.
+// A load must return the stored message, nothing of the target's earlier content.
+func kvDirty(typ, id string) nodeenrollment.MessageWithId {
+	old := []byte("left-over-from-an-earlier-load")
+	st, _ := structpb.NewStruct(map[string]any{"left": "over"})
+	bundles := []*types.CertificateBundle{{CertificateDer: old, CaCertificateDer: old}}
+	switch typ {
+	case kvNodeInfo:
+		return &types.NodeInformation{Id: id, RegistrationNonce: old, NodeId: "old-node", WrappingKeyId: "old", State: st, CertificateBundles: bundles,
+			ServerEncryptionPrivateKeyBytes: old, PreviousEncryptionKey: &types.EncryptionKey{KeyId: "old", PrivateKeyPkcs8: old}}
+	case kvNodeCreds:
+		return &types.NodeCredentials{Id: id, RegistrationNonce: old, WrappingKeyId: "old", State: st, CertificateBundles: bundles, EncryptionPrivateKeyBytes: old}
+	case kvRoots:
+		return &types.RootCertificates{Id: id, WrappingKeyId: "old", State: st, Current: &types.RootCertificate{Id: "current", CertificateDer: old, PrivateKeyPkcs8: old},
+			Next: &types.RootCertificate{Id: "next", CertificateDer: old}}
+	case kvToken:
+		return &types.ServerLedActivationToken{Id: id, CreationTimeMarshaled: old, WrappingKeyId: "old", State: st}
 	}
 	panic("kvmodel: unknown type " + typ)
 }
@@ -233,6 +256,7 @@ type kvRunner struct {
 	kase    *kvCase
 	opIdx   int
 	failed  bool
+	loads   int
 }
 
 func (k *kvRunner) count(class string) { k.cnt[k.backend+":"+class]++ }
@@ -286,6 +310,12 @@ func (k *kvRunner) checkLoad(typ, id, tag string) {
 		return
 	}
 	msg := kvBlank(typ, id)
+	k.loads++
+	dirty := k.loads%3 == 0
+	if dirty {
+		msg = kvDirty(typ, id)
+		k.count("loads_into_a_used_target")
+	}
 	err, ok := k.call("Load", func() error { return k.st.Load(k.ctx, msg) })
 	if !ok {
 		return
@@ -312,7 +342,11 @@ func (k *kvRunner) checkLoad(typ, id, tag string) {
 	}
 	exp := kvBuild(typ, id, want.Payload, want.NodeID)
 	if !proto.Equal(msg, exp) {
-		k.fail("load-wrong-value:"+k.backend+":"+typ, fmt.Sprintf("Load of %s %q returned payload %q (id %q), most recent store had payload %q", typ, kvShort(id), kvPayload(msg), kvShort(msg.GetId()), want.Payload))
+		cls := "load-wrong-value:"
+		if dirty {
+			cls = "load-wrong-value:into-used-target:"
+		}
+		k.fail(cls+k.backend+":"+typ, fmt.Sprintf("Load of %s %q returned payload %q (id %q), most recent store had payload %q (target used before: %v)", typ, kvShort(id), kvPayload(msg), kvShort(msg.GetId()), want.Payload, dirty))
 		return
 	}
 	for _, ot := range kvTypes {
